@@ -734,6 +734,22 @@ func main() {
 			jobs <- job{w: w, out: out, i: i, pol: pol, van: r.Chance(1, 4), ps: r.Uint64(), us: r.Chance(1, 10), nest: r.Chance(1, 12)}
 		}
 	}
+	// directed: journal records ending 0..9 bytes before a 32 KiB block end (see residueRun); crash after every write
+	{
+		r := root.Fork()
+		w, out := residueRun(r)
+		w.Seed = a.Seed*1000 + 999
+		if out.err == "" {
+			res.Count("workloads_residue_directed", 1)
+			for _, b := range out.batches {
+				for _, pol := range []vstor.TailPolicy{vstor.TailKept, vstor.TailCut} {
+					jobs <- job{w: w, out: out, i: b.AckIdx, pol: pol, ps: r.Uint64()}
+				}
+			}
+		} else {
+			res.Count("workloads_residue_directed_errors", 1)
+		}
+	}
 	close(jobs)
 	wg.Wait()
 	// (K) dedicated workloads: no reopen, default manifest size (the model has neither)
